@@ -474,8 +474,20 @@ func vGenAbScript(c *vCase) *vAbScript {
 			s.groups[gi].lost = map[int]bool{}
 		}
 	}
+	if !s.unwrap && (c.Idx%3 == 1 || vAbForceInvert) {
+		// inverted channels without unwrapping, with or without rescaling: inversion is applied to the raw value before anything else
+		g := s.groups[r.Intn(len(s.groups))]
+		s.uopts.InvertChan = []int{g.first + r.Intn(g.nchan)}
+		if vChance(r, 0.4) {
+			g2 := s.groups[r.Intn(len(s.groups))]
+			s.uopts.InvertChan = append(s.uopts.InvertChan, g2.first+r.Intn(g2.nchan))
+		}
+	}
 	return s
 }
+
+// vAbForceInvert: C12's second device-path family (inversion without unwrapping, with or without rescaling).
+var vAbForceInvert bool
 
 func (s *vAbScript) String() string {
 	var gs []string
@@ -487,7 +499,7 @@ func (s *vAbScript) String() string {
 		sort.Ints(lost)
 		gs = append(gs, fmt.Sprintf("{first=%d n=%d sn0=%d prod=%d sampled=%d lost=%v}", g.first, g.nchan, g.snBase, g.producer, g.sampled, lost))
 	}
-	return fmt.Sprintf("fpp=%d bits=%d low=%v rescale=%v nSample=%d nScript=%d groups=%s ticks=%v", s.fpp, s.bits, s.lowbits, s.rescale,
+	return fmt.Sprintf("fpp=%d bits=%d low=%v rescale=%v inverted=%v nSample=%d nScript=%d groups=%s ticks=%v", s.fpp, s.bits, s.lowbits, s.rescale, s.uopts.InvertChan,
 		s.nSample, s.nScript, strings.Join(gs, ""), s.ticks)
 }
 
@@ -607,7 +619,7 @@ func vRunAbacoOnce(c *vCase, s *vAbScript, rep int) {
 		c.Inconclusive("setup", "NewAbacoSource: %v", err)
 		return
 	}
-	as.unwrapOpts = AbacoUnwrapOptions{RescaleRaw: s.rescale}
+	as.unwrapOpts = AbacoUnwrapOptions{RescaleRaw: s.rescale, InvertChan: s.uopts.InvertChan}
 	if s.unwrap {
 		as.unwrapOpts = s.uopts
 	}
@@ -787,6 +799,13 @@ func vCheckAbaco(c *vCase, s *vAbScript, run *vAbRun, tap *vAbTap, stalled bool,
 		c.Cov("drained_runs", 1)
 	}
 	fillerOut := 0
+	inverted := map[int]bool{}
+	for _, ic := range s.uopts.InvertChan {
+		inverted[ic] = true
+	}
+	if !s.unwrap && len(inverted) > 0 {
+		c.Cov("runs_with_inverted_channels_without_unwrapping", 1)
+	}
 	for ci, ch := range chans {
 		pos := 0
 		var unwrapped []RawType
@@ -821,6 +840,9 @@ func vCheckAbaco(c *vCase, s *vAbScript, run *vAbRun, tap *vAbTap, stalled bool,
 					continue // filler: value unconstrained
 				}
 				want := vAbVal(ch.ch, frame)
+				if inverted[ch.ch] {
+					want ^= 0xffff
+				}
 				if s.rescale {
 					want >>= 4
 				}
@@ -838,6 +860,9 @@ func vCheckAbaco(c *vCase, s *vAbScript, run *vAbRun, tap *vAbTap, stalled bool,
 					hint := ""
 					for d := -40 * s.fpp; d <= 40*s.fpp; d++ {
 						w := vAbVal(ch.ch, frame+d)
+						if inverted[ch.ch] {
+							w ^= 0xffff
+						}
 						if s.rescale {
 							w >>= 4
 						}
